@@ -1,4 +1,5 @@
 """C13 - a filter's result is independent of other filters, earlier or concurrent."""
+import json
 import random
 import sys
 import threading
@@ -126,8 +127,92 @@ def target_codes():
     return codes, ['%s:%d' % (c.co_name, c.co_firstlineno) for c in codes]
 
 
+PATH_FILTERS = ['r->val == 1', 'r->val == 2', 'r->val == 7', 'r->val == 9', 'r->val', 'not r->val', 'r->val < 5', 'r->val >= 2',
+                'r->id', 'r->k', 'r->r->val == 1', 'r->val == 1 or k == "d"', 'k == "a" and r->val', 'r->val != 7', 'id and val > 1',
+                'r->nope', 'not r->nope', 'r == @t1', 'r == @p1', 'val', 'k']
+
+_FIRST_USE = r'''
+import sys, json, warnings
+warnings.simplefilter('ignore')
+sys.path.insert(0, sys.argv[1])
+sys.path.insert(0, sys.argv[2])
+class Sink(object):
+    def write(self, s): pass
+    def flush(self): pass
+out = sys.stdout
+sys.stdout = Sink()
+from vf.props import c13
+g, hrows = c13.mixed_grid()
+try:
+    res = c13.got_rows(g.filter(sys.argv[3]), hrows)
+except Exception as e:
+    res = 'raised ' + type(e).__name__
+out.write(json.dumps(res))
+'''
+
+
+def mixed_grid():
+    """Ids given as Ref, as plain string, and one name given both ways; rows that point at them."""
+    import hszinc
+    R = hszinc.Ref
+    rows = [{'id': R('t1'), 'val': 1.0}, {'id': 't1', 'val': 2.0}, {'id': 'p1', 'val': 7.0}, {'id': R('q1'), 'val': 9.0, 'r': R('t1')},
+            {'r': R('t1'), 'k': 'a'}, {'r': R('p1'), 'k': 'b'}, {'r': R('q1'), 'k': 'c'}, {'r': R('nowhere'), 'k': 'd'},
+            {'r': R('t1', 'Display T'), 'k': 'e'}, {'r': 't1', 'k': 'f'}, {'id': R('z9'), 'r': R('p1'), 'val': 3.0}]
+    g = hszinc.Grid(version='3.0', columns=[(c, []) for c in ('id', 'val', 'r', 'k')])
+    for r in rows:
+        g.append(r)
+    return g, rows
+
+
+def first_use_part(spec, ctx):
+    """Every filter of a small set is evaluated as the *first filter ever used* in an interpreter of its own; in this
+    process the same filters are then evaluated in long random orders, mixed with other filters and on two grids: the
+    rows must always be those of the first use."""
+    import subprocess
+    from concurrent.futures import ThreadPoolExecutor
+    from vf import core
+
+    def first(text):
+        p = subprocess.run([core.PY, '-B', '-c', _FIRST_USE, core.REPO, core.ROOT, text], stdin=subprocess.DEVNULL, stdout=subprocess.PIPE,
+                           stderr=subprocess.PIPE, env=core.worker_env(None), timeout=300)
+        try:
+            return json.loads(p.stdout.decode('utf-8'))
+        except Exception:
+            return 'no answer: %s' % p.stderr.decode('utf-8', 'replace')[-200:]
+    with ThreadPoolExecutor(max_workers=8) as ex:
+        base = dict(zip(PATH_FILTERS, ex.map(first, PATH_FILTERS)))
+    bad = [t for t, v in base.items() if isinstance(v, str) and v.startswith('no answer')]
+    if bad:
+        ctx.inconc('first-use interpreters gave no answer for %r: %s' % (bad[:2], base[bad[0]]))
+        return
+    ctx.count('filters evaluated as the first filter of a fresh interpreter', len(base))
+    g, hrows = mixed_grid()
+    g2, rows2, hrows2 = make_grid()
+    fam = filter_family(300)
+    r = random.Random(ctx.seed * 1000003 + 1313)
+    for j in range(spec['n']):
+        text = r.choice(PATH_FILTERS)
+        if r.random() < 0.3:
+            try:
+                g2.filter(fam[r.randrange(300)][1])
+            except Exception:   # noqa
+                pass
+        ctx.case('first-use', j, text)
+        try:
+            got = got_rows(g.filter(text), hrows)
+        except Exception as e:   # noqa
+            got = 'raised ' + type(e).__name__
+        ctx.count('results compared with the first-use result')
+        if got != base[text]:
+            ctx.violation({'part': 'history', 'kind': 'filter', 'symptom': 'differs-from-first-use', 'features': ['mixed-id-spellings']},
+                          'filter %r gives rows %r after %d other evaluations in this process, %r when it is the first filter an '
+                          'interpreter ever evaluates' % (text, got, j, base[text]), {'phase': 'first-use', 'n': j + 1})
+            break
+    ctx.sample({'first_use': {t: base[t] for t in PATH_FILTERS[:4]}})
+
+
 def shards(tier, seed):
-    out = [{'part': 'history'}]
+    out = [{'part': 'history'}, {'part': 'first-use', 'n': 1500 if tier == 'quick' else 60000}]
     if tier == 'quick':
         out += [{'part': 'schedules', 'threads': 2, 'bound': 2, 'prefill': 0},
                 {'part': 'schedules', 'threads': 2, 'bound': 1, 'prefill': 499},
@@ -171,6 +256,8 @@ def run_shard(spec, ctx):
             return False
         return True
 
+    if spec['part'] == 'first-use':
+        return first_use_part(spec, ctx)
     if spec['part'] == 'history':
         gf._filter_function.cache_clear()
         info0 = gf._filter_function.cache_info()
@@ -392,6 +479,8 @@ def compact(trace):
 
 def replay(case, ctx):
     import hszinc
+    if case.get('phase') == 'first-use':
+        return first_use_part({'part': 'first-use', 'n': max(1500, case.get('n', 0))}, ctx)
     if case.get('overrides') is not None:
         spec = {'part': 'schedules', 'threads': case['threads'], 'bound': 0, 'prefill': case['prefill'],
                 'same_filter': case.get('same_filter')}
@@ -431,5 +520,7 @@ def finish(ctx, merged):
         ctx.inconclusive.append('no LRU eviction observed')
     if c.get('switches inside the compile window', 0) == 0:
         ctx.inconclusive.append('no schedule switched threads inside the compile window')
+    if c.get('results compared with the first-use result', 0) < 1000:
+        ctx.inconclusive.append('first-use comparison did not run to the end')
     if c.get('stress rounds', 0) == 0:
         ctx.inconclusive.append('stress mode did not run')
